@@ -56,3 +56,10 @@ package db
 //@   modifies nothing
 //@   ensures result0 != nil
 //@   ensures (result1 && result0.ExtendedCode == UniqueConstrain) == isUniqueErr(err)
+
+// ---- how every store opens its database (C04, C07, C16): the assumed transaction and cascade semantics (A5) rest on
+// these connection parameters being applied to every pooled connection, i.e. being part of the DSN
+//@ func NewSQLiteDB
+//@   props C04 C07 C16
+//@   trusted
+//@   consttext "file:%s?_txlock=exclusive&_foreign_keys=on&_journal_mode=WAL"
